@@ -33,6 +33,11 @@ func (c *octx) twins(t *testing.T, cfg simrt.Config) *eng.Violation {
 		if hasNested(c.sc) {
 			return nil // a run nested inside a callback names a flow object: no flattened twin
 		}
+		for _, n := range c.sc.Nodes {
+			if n.Wrap != "" {
+				return nil // a wrapper type adds lifecycle steps of its own: judged against the model only
+			}
+		}
 		flat := flatten(c.sc)
 		if flat == nil {
 			return nil
